@@ -16,10 +16,13 @@
 (* <<X, Y, Z, W>> with gcd normalisation; a corner of a reference polygon  *)
 (* with area that is not on the K-grid cannot be among the recorded        *)
 (* points, which is reported as a missing corner / missing segment.        *)
-(* Magnitudes: lattice coordinates <= 3, K <= 1000 for quadratic terms and *)
-(* K <= 128 where cubic terms are formed (guarded by MODEL_LIMIT, which    *)
-(* the harness turns into a machinery error): every product stays below    *)
-(* 2^31, and TLC aborts on integer overflow rather than wrapping.          *)
+(* Magnitudes: lattice coordinates <= 3 (<= 5 for two seeds, which the     *)
+(* harness caps only on grids K <= 32 resp. planes with small crossings),  *)
+(* K <= 1000 for quadratic terms and K <= 128 where cubic terms are formed *)
+(* (guarded by MODEL_LIMIT, which the harness turns into a machinery       *)
+(* error): every product stays below 2^31, and TLC aborts on integer       *)
+(* overflow rather than wrapping.  Scaled / translated presentations of a  *)
+(* mesh are mapped back by the harness: the reference only sees lattices.  *)
 (*                                                                         *)
 (* What is stated (and nothing more):                                      *)
 (*  section  - every recorded end point lies on the plane, every recorded  *)
